@@ -1,6 +1,7 @@
 import CnlProofs.Exp2
 import CnlProofs.Exp2Tab8
 import CnlProofs.Numbers
+import CnlProofs.NumbersReal
 /-!
 # C20 — exp2 and the mathematical constants of scaled_integer are accurate to one unit in the last place
 
@@ -22,11 +23,23 @@ specification `Cnl.Spec.Exp2.IsRef E rep r` (`r = ⌊2^x · 2^(−E)⌋`, `x = r
   with an integer bit outside the sign-compare class, every such `x` (finite: at most `digits` inputs per format).
 * constants: `C20_constants_model`, `C20_constants_algebraic` (√2, √3, 1/√3, φ: exact), `C20_constants_ref60` (all thirteen, against a
   60-digit decimal enclosure — a numerical reference, not a theorem about π or e), `C20_constants_series_unreachable`.
+* constants against the TRUE real numbers (`CnlProofs.NumbersReal`, Mathlib's `Real.pi`, `Real.exp 1`, `Real.log`, `√`,
+  `Real.eulerMascheroniConstant`): `C20_constants_real` — for every generated (constant, Rep, Exponent) entry of twelve of the thirteen
+  constants (π, e, ln 2, ln 10, log₂e = 1/ln 2, log₁₀e = 1/ln 10, 1/π, 1/√π, √2, √3, 1/√3, φ — every format up to 64 bits) the model stores
+  the tabulated representation `c` and `(c − 1)·2^E < K < (c + 1)·2^E` holds in ℝ; for γ the same for the formats with at most 14
+  fractional bits (`C20_egamma_real_partial`).  Per-constant statements written out: `C20_pi_real`, `C20_e_real`, `C20_ln2_real`,
+  `C20_ln10_real`, `C20_log2e_real`, `C20_log10e_real`, `C20_inv_pi_real`, `C20_inv_sqrtpi_real`, `C20_sqrt2_real`, `C20_sqrt3_real`,
+  `C20_inv_sqrt3_real`, `C20_phi_real`.  Enclosures used: π from `Real.pi_gt_d20/pi_lt_d20`; e from `Real.exp_one_near_20`; ln 2 from 70
+  terms of the log series with Mathlib's remainder bound (2^−70; Mathlib's ready-made `log_two_near_10` would stop at ≈ 30 fractional bits);
+  ln 10 = 3 ln 2 + ln(5/4); reciprocals and square roots by rational interval arithmetic; γ from `eulerMascheroniSeq 16383 < γ <
+  eulerMascheroniSeq' 16384`.
 
 **Not proved** (`def … : Prop`, kept at full strength): `C20_exp2_full` (false, see above); `C20_16_full` / `C20_32_full` — the deviation bound for
 16- and 32-bit reps: the kernel evaluator needs ≈ 30 ms per input on this model, so 65 536-input tables do not fit the build budget and `2^32` never will;
 both are covered by the correspondence sweep (every input of the listed 16-bit formats; dense for 32-bit) with the *same, proved-sound* oracle run by
-the compiled driver.  `C20_constants_full` — the transcendental constants for all formats need real-analysis bounds (Mathlib has 20 digits of π, 9–20 of e).
+the compiled driver.  `C20_constants_real_full` — γ (egamma) for the formats with more than 14 fractional bits: Mathlib bounds γ only by the two O(1/n) sequences
+`Hₙ − log(n+1)` and `Hₙ − log n`, so 2^−64 precision is out of reach; those 60 entries (egamma, −Exponent ∈ {15, 16, 18, 20, 21, 24, 25, 27, 30,
+31, 32, 35, 40, 45, 50, 55, 60 … 64}) stay compared with the 60-digit numerical reference only (`C20_constants_ref60`).
 -/
 open Cnl Cnl.Exp2 Cnl.Spec.Exp2 Cnl.Exp2Proofs
 
@@ -195,5 +208,69 @@ theorem C20_constants_series_unreachable (name : String) (W : Nat) (E : Int) (hW
     Numbers.usesFloat name E = true := NumbersProofs.series_unreachable name W E hW hfit
 
 example : Numbers.usesFloat "pi" (-62) = true := by decide
+
+/-! ## (d') constants against the true real numbers -/
+
+open NumbersProofs in
+/-- the property for the constants, over ℝ, every entry of the generated table: the model stores the tabulated representation `c` and
+`(c − 1)·2^E < K < (c + 1)·2^E` where `K = NumbersReal.trueValue name` is the real constant itself -/
+def C20_constants_real_full : Prop :=
+  ∀ (name : String) (es : List NumbersReal.Entry), (name, es) ∈ Generated.numbers → ∀ K : ℝ, NumbersReal.trueValue name = some K →
+    ∀ e ∈ es, Numbers.stored name (entryTy e) (entryExp e) = .ok (entryRep e) ∧
+      ((entryRep e : ℝ) - 1) * (2 : ℝ) ^ entryExp e < K ∧ K < ((entryRep e : ℝ) + 1) * (2 : ℝ) ^ entryExp e
+
+open NumbersProofs in
+/-- proved for every entry except γ with more than 14 fractional bits (`NumbersReal.Covered`) -/
+theorem C20_constants_real (name : String) (es : List NumbersReal.Entry) (hmem : (name, es) ∈ Generated.numbers) (K : ℝ)
+    (hK : NumbersReal.trueValue name = some K) (e : NumbersReal.Entry) (he : e ∈ es)
+    (hc : name = "egamma" → e.2.2.1 ≤ 14) :
+    Numbers.stored name (entryTy e) (entryExp e) = .ok (entryRep e) ∧
+      ((entryRep e : ℝ) - 1) * (2 : ℝ) ^ entryExp e < K ∧ K < ((entryRep e : ℝ) + 1) * (2 : ℝ) ^ entryExp e :=
+  ⟨NumbersReal.stored_eq name es hmem e he, NumbersReal.all_within1 name es hmem K hK e he hc⟩
+
+section
+open NumbersProofs Real
+/-- `e = (signed, bits, −Exponent, c)`: `(c − 1)·2^E < K < (c + 1)·2^E` in ℝ -/
+local notation "W1[" K ", " e "]" =>
+  ((entryRep e : ℝ) - 1) * (2 : ℝ) ^ entryExp e < K ∧ K < ((entryRep e : ℝ) + 1) * (2 : ℝ) ^ entryExp e
+
+theorem C20_pi_real : ∀ e ∈ Generated.numbers_pi, W1[π, e] := NumbersReal.pi_within1
+theorem C20_e_real : ∀ e ∈ Generated.numbers_e, W1[exp 1, e] := NumbersReal.e_within1
+theorem C20_ln2_real : ∀ e ∈ Generated.numbers_ln2, W1[log 2, e] := NumbersReal.ln2_within1
+theorem C20_ln10_real : ∀ e ∈ Generated.numbers_ln10, W1[log 10, e] := NumbersReal.ln10_within1
+theorem C20_log2e_real : ∀ e ∈ Generated.numbers_log2e, W1[1 / log 2, e] := NumbersReal.log2e_within1
+theorem C20_log10e_real : ∀ e ∈ Generated.numbers_log10e, W1[1 / log 10, e] := NumbersReal.log10e_within1
+theorem C20_inv_pi_real : ∀ e ∈ Generated.numbers_inv_pi, W1[1 / π, e] := NumbersReal.inv_pi_within1
+theorem C20_inv_sqrtpi_real : ∀ e ∈ Generated.numbers_inv_sqrtpi, W1[1 / √π, e] := NumbersReal.inv_sqrtpi_within1
+theorem C20_sqrt2_real : ∀ e ∈ Generated.numbers_sqrt2, W1[√2, e] := NumbersReal.sqrt2_within1
+theorem C20_sqrt3_real : ∀ e ∈ Generated.numbers_sqrt3, W1[√3, e] := NumbersReal.sqrt3_within1
+theorem C20_inv_sqrt3_real : ∀ e ∈ Generated.numbers_inv_sqrt3, W1[1 / √3, e] := NumbersReal.inv_sqrt3_within1
+theorem C20_phi_real : ∀ e ∈ Generated.numbers_phi, W1[(1 + √5) / 2, e] := NumbersReal.phi_within1
+/-- γ: formats with at most 14 fractional bits -/
+theorem C20_egamma_real_partial : ∀ e ∈ Generated.numbers_egamma, e.2.2.1 ≤ 14 → W1[eulerMascheroniConstant, e] :=
+  NumbersReal.egamma_within1
+
+/-- `log2e` and `log10e` are the logarithms of e to base 2 and 10 -/
+theorem C20_log2e_is_logb : (1 : ℝ) / log 2 = logb 2 (exp 1) ∧ (1 : ℝ) / log 10 = logb 10 (exp 1) := by
+  simp [logb]
+
+/-- `std::numbers::pi_v<scaled_integer<int32_t, power<-28>>>` has representation 843314856 and `843314855·2^−28 < π < 843314857·2^−28` -/
+example : Numbers.stored "pi" ⟨32, true⟩ (-28) = .ok 843314856 ∧
+    (843314855 : ℝ) * (2 : ℝ) ^ (-28 : ℤ) < π ∧ π < (843314857 : ℝ) * (2 : ℝ) ^ (-28 : ℤ) := by
+  have h := C20_constants_real "pi" Generated.numbers_pi (by decide) π rfl (1, 32, 28, 843314856) (by decide) (by decide)
+  simp only [entryTy, entryExp, entryRep] at h
+  norm_num at h ⊢
+  exact h
+
+/-- `e_v<scaled_integer<uint64_t, power<-62>>>`: all 64 bits -/
+example : (12535862302449814170 : ℝ) * (2 : ℝ) ^ (-62 : ℤ) < exp 1 ∧ exp 1 < (12535862302449814172 : ℝ) * (2 : ℝ) ^ (-62 : ℤ) := by
+  have h := C20_e_real (0, 64, 62, 12535862302449814171) (by decide)
+  simp only [entryExp, entryRep] at h
+  norm_num at h ⊢
+  exact h
+
+/-- `ln2_v<scaled_integer<uint64_t, power<-64>>>` -/
+example : (0, 64, 64, 12786308645202655659) ∈ Generated.numbers_ln2 := by decide
+end
 
 end Cnl.C20
